@@ -738,5 +738,85 @@ def r7_handlers(chk: Check) -> None:
             chk.undecided("C16.R7", JUNIT, "the JUnit report is written from shutdown() as well", "no call of to_xml_report_file found", JUNIT)
 
 
+def r9_writer_waited_for(chk: Check) -> None:
+    chk.rule("C16.R9", "DRAIN(cassette writer thread): the exchanges are written by a background thread fed through a queue; the report is complete only if that thread is waited for until the queue is drained: (a) `shutdown` enqueues Finalize and THEN joins the worker; (b) the join has no timeout - `--report-vcr-path` / `--report-har-path` hand a click-managed file to the writer, which click closes right after the handlers return, so a writer that lags (large bodies) past a timed-out join dies with `I/O operation on closed file`; (c) where the join is bounded (or missing) the thread must at least not be a daemon (the interpreter waits for non-daemon threads) - otherwise truncated YAML / JSON, queued exchanges lost", floor=3)
+    P = chk.project
+    cls = P.cls(f"{CAS}:CassetteWriter")
+    threads = []
+    joins = []
+    daemon_sets = []
+    for m in cls.methods.values():
+        for c in body_calls(m):
+            if last_attr(c) == "Thread":
+                threads.append((m, c))
+            if last_attr(c) == "join" and unparse(c.func) == "self.worker.join":
+                joins.append((m, c))
+        for a in walk_body(m.node):
+            if isinstance(a, ast.Assign) and any(unparse(t) == "self.worker.daemon" for t in a.targets):
+                daemon_sets.append((m, a))
+    if not threads:
+        chk.undecided("C16.R9", cls.qualname, "writer thread", "threading.Thread(...) not found in CassetteWriter")
+        return
+    for m, c in threads:
+        kw = next((k.value for k in c.keywords if k.arg == "daemon"), None)
+        later = [a.value for _, a in daemon_sets]
+        vals = ([kw] if kw is not None else []) + later
+        if not vals:
+            daemon: bool | None = False
+        elif all(isinstance(v, ast.Constant) for v in vals):
+            daemon = bool(vals[-1].value)  # type: ignore[attr-defined]
+        else:
+            daemon = None
+        unbounded = [j for _, j in joins if not j.args and not j.keywords]
+        construct = "the writer thread outlives a timed-out join"
+        if unbounded and len(unbounded) == len(joins):
+            chk.ok("C16.R9", m, construct, "join() without a timeout", m.loc(c))
+        elif daemon is False:
+            chk.ok("C16.R9", m, construct, "non-daemon thread: the interpreter waits for it at exit", m.loc(c))
+        elif daemon is None:
+            chk.undecided("C16.R9", m, construct, "daemon flag is computed", m.loc(c))
+        else:
+            chk.violation("C16.R9", m, construct,
+                          "the writer is a daemon thread and shutdown joins it with a timeout only (or not at all): when it lags behind (multi-megabyte bodies are escaped character by character) the process exits in the middle of a write - the cassette ends inside a scalar / the HAR file lacks its closing brackets, and exchanges still queued are lost",
+                          m.loc(c))
+    # the stream may belong to click: `--report-vcr-path` / `--report-har-path` are `click.File` options, click closes
+    # such files when the command's context is torn down, i.e. right after the handlers' shutdown returned
+    run_mod = P.module("cli/commands/run/__init__.py")
+    click_files = []
+    for c in ast.walk(run_mod.tree):
+        if isinstance(c, ast.Call) and c.args and const_str(c.args[0]) in ("--report-vcr-path", "--report-har-path"):
+            ty = next((k.value for k in c.keywords if k.arg == "type"), None)
+            if ty is not None and isinstance(ty, ast.Call) and unparse(ty.func) in ("click.File", "File"):
+                click_files.append(const_str(c.args[0]))
+    construct = "the stream is not closed by click while the writer is still writing"
+    bounded = [(m, j) for m, j in joins if j.args or j.keywords]
+    if not click_files:
+        chk.ok("C16.R9", cls.qualname, construct, "no click-managed report file")
+    elif not joins:
+        chk.violation("C16.R9", cls.qualname, construct, f"{', '.join(click_files)} hand a click-managed file to the writer and nothing waits for the writer: click closes the file under it")
+    elif bounded:
+        m, j = bounded[0]
+        chk.violation("C16.R9", m, construct,
+                      f"{', '.join(click_files)} hand a click-managed file to the writer thread; `{unparse(j)}` gives up after the timeout and click closes the file at context teardown: a writer that lags (large bodies) dies with `I/O operation on closed file` - the cassette ends inside a scalar, queued exchanges are lost",
+                      m.loc(j))
+    else:
+        chk.ok("C16.R9", joins[0][0], construct, "the writer is joined without a timeout before the handlers return", joins[0][0].loc(joins[0][1]))
+    sd = cls.methods.get("shutdown")
+    construct = "shutdown enqueues Finalize and then waits for the worker"
+    if sd is None:
+        chk.violation("C16.R9", cls.qualname, construct, "CassetteWriter has no shutdown: nothing closes the report")
+    else:
+        puts = [c for c in body_calls(sd) if unparse(c.func) == "self.queue.put" and c.args and "Finalize" in unparse(c.args[0])]
+        waits = [c for c in body_calls(sd) if unparse(c.func) in ("self._stop_worker", "self.worker.join")]
+        if puts and waits and puts[0].lineno < waits[0].lineno:
+            chk.ok("C16.R9", sd, construct, "", sd.loc(puts[0]))
+        elif not puts:
+            chk.violation("C16.R9", sd, construct, "Finalize is never enqueued: the writer never closes the document", sd.loc())
+        elif not waits:
+            chk.decide(None, "C16.R9", sd, construct, "no wait for the worker found", sd.loc())
+        else:
+            chk.violation("C16.R9", sd, construct, "the worker is waited for BEFORE Finalize is enqueued: the wait always times out and the document is closed (if at all) after the handlers returned", sd.loc(waits[0]))
+
+
 def rules(tier: str) -> list:  # type: ignore[type-arg]
-    return [r1_yaml_flow, r1c_line_protocol, r2_conditional_writer, r2b_failures_once, r3_structured_writers, r6_total_operations, r7_handlers, r8_header_fields]
+    return [r1_yaml_flow, r1c_line_protocol, r2_conditional_writer, r2b_failures_once, r3_structured_writers, r6_total_operations, r7_handlers, r8_header_fields, r9_writer_waited_for]
